@@ -54,6 +54,7 @@ struct ShimCfg {
 	int realloc_always_moves;
 	uint32_t rate_kill, rate_write_lost;
 	int kill_spid;              // sim process that may be killed at any of its libc calls (0: nobody)
+	int64_t kill_countdown;     // > 0: that process dies at its n-th libc call from now (armed by a harness at a chosen instant)
 	int kill_after_short_send;  // that process dies right after a send that an injected fault cut short (handshake prefixes)
 	int sndbuf_bytes;           // SO_SNDBUF forced on accepted / connected stream sockets (0: leave alone)
 	int64_t eagain_cost_ns;     // virtual time charged to a caller that got EAGAIN from send/writev
